@@ -23,6 +23,7 @@ typedef struct xcase {
     fcase_t f;        /* XF_PRINTF */
     uint8_t w[12];    /* symbol indices of a wide source string (UNI rows) */
     int wn;
+    int mrun;         /* UNI rows: a run of this many combining marks behind the first character (the reorder/compose steps keep 10 on the stack and grow beyond) */
 } xcase_t;
 
 /* characters whose folding / decomposition expands */
@@ -94,6 +95,10 @@ static int gen_x(cs_t *cs, void *k, const runcfg_t *cfg) {
         c->dmax = (int)cs_range(cs, 0, cfg->phase ? 24 : 9);
         c->a = (int)cs_range(cs, 0, 3);   /* mode / step */
         c->b = (int)cs_range(cs, 0, 1);   /* lenp NULL */
+        if (cfg->phase && c->fn != XF_TOWFC && cs_range(cs, 0, 4) == 0) {
+            c->mrun = (int)cs_range(cs, 8, 24);
+            c->dmax = (int)cs_range(cs, 0, 60);
+        }
         break;
     }
     return 1;
@@ -107,6 +112,7 @@ static void x_describe(const void *k, char *buf, size_t n) {
                  c->src_null ? " src=NULL" : "", c->roomy, c->a, c->b, c->c);
     if (c->fn >= XF_WCSFC && c->fn <= XF_NORMSTEP && p < (int)n) {
         int i;
+        if (c->mrun) p += snprintf(buf + p, n - (size_t)p, " marks-after-first=%d", c->mrun);
         p += snprintf(buf + p, n - (size_t)p, " src=[");
         for (i = 0; i < c->wn && p < (int)n - 12; i++) p += snprintf(buf + p, n - (size_t)p, "U+%04X ", (unsigned)USYM[c->w[i] % NUSYM]);
         p += snprintf(buf + p, n - (size_t)p, "]");
@@ -282,10 +288,15 @@ static void run_x(const xcase_t *c, int guard) {
             break;
         }
         default: { /* Unicode rows */
-            size_t n = (size_t)c->wn;
+            size_t n = (size_t)c->wn + (size_t)c->mrun, q = 0;
             wchar_t *src = (wchar_t *)(void *)ar_alloc(guard, PL_END, (n + 1) * sizeof(wchar_t), 0);
             rsize_t *lenp = (rsize_t *)(void *)ar_alloc(guard, PL_END, sizeof(rsize_t), 0);
-            for (i = 0; i < n; i++) src[i] = (wchar_t)USYM[c->w[i] % NUSYM];
+            for (i = 0; i < (size_t)c->wn; i++) {
+                src[q++] = (wchar_t)USYM[c->w[i] % NUSYM];
+                if (i == 0) { size_t m; for (m = 0; m < (size_t)c->mrun; m++) src[q++] = (m & 1) ? 0x301 : ((m % 3) ? 0x323 : 0x327); }
+            }
+            if (c->wn == 0) { size_t m; for (m = 0; m < (size_t)c->mrun; m++) src[q++] = (m & 1) ? 0x301 : 0x323; }
+            n = q;
             src[n] = 0;
             *lenp = n;
             O.is_string = 1; O.usable = !c->dest_null && c->dmax > 0 && c->dmax <= (int)RSIZE_MAX_WSTR; O.slack_promised = (c->fn == XF_WCSFC || c->fn == XF_WCSNORM);
